@@ -442,3 +442,17 @@ package factstore
 //@   loop 1 invariant forall k int :: 0 <= k && k <= rangeindex ==> s.predicates[k] != pred
 //@   loop 1 invariant toSkip == 1 + len(s.predicates) + blockOffset(s.predicates, s.predicateFactCount, rangeindex + 1)
 //@   loop 1 invariant 0 <= blockOffset(s.predicates, s.predicateFactCount, rangeindex + 1) && blockOffset(s.predicates, s.predicateFactCount, rangeindex + 1) <= (rangeindex + 1) * 4398046511104
+
+// No input line can crash the reader: every index, make and type assertion in readPred is safe.
+//@ func (sc SimpleColumn) readPred(scanner, p, numFacts, filter, cb)
+//@   requires 0 <= numFacts && numFacts <= 4294967296 && 0 <= p.Arity && p.Arity <= 1024 && (filter == nil || len(filter) == p.Arity)
+//@   loop 1 invariant 0 <= i && i <= numFacts && len(args) == numFacts && len(skip) == numFacts
+//@   loop 2 invariant 0 <= j && j <= p.Arity && len(args) == numFacts && len(skip) == numFacts && (forall k int :: 0 <= k && k < numFacts ==> len(args[k]) == p.Arity)
+//@   loop 3 invariant 0 <= j && j < p.Arity && 0 <= i#2 && i#2 <= numFacts && len(args) == numFacts && len(skip) == numFacts && (forall k int :: 0 <= k && k < numFacts ==> len(args[k]) == p.Arity)
+//@   loop 4 invariant 0 <= i#3 && i#3 <= numFacts && len(args) == numFacts && len(skip) == numFacts
+
+// Reading a file into a store adds exactly what the lazy view would answer: a zero-arity predicate is a fact
+// only if its recorded count is positive.
+//@ func (sc SimpleColumn) ReadInto(r, store)
+//@   guard call Add: rangeindex >= 0 && rangeindex < len(preds) && (preds[rangeindex].Arity == 0 ==> predNumFacts[rangeindex] > 0)
+//@   loop 1 invariant hdrOK(preds, predNumFacts)
